@@ -34,4 +34,6 @@ class AbsmaxOptimizer(SymmetricOptimizer):
             dim = list(range(1, base.ndim)) if (axis == 0) else list(range(0, base.ndim - 1))
             rmax = torch.amax(torch.abs(base), dim=dim, keepdim=True)
         qmax = 2 ** (bits - 1) - 1
-        return rmax / qmax
+        scale = rmax / qmax
+        # A null scale (all zeros, or underflow) would lead to a division by zero: any non-null scale represents it exactly
+        return torch.where(scale > 0, scale, torch.ones_like(scale))
